@@ -270,8 +270,27 @@ def showObs : Obs Val → String
   | .val a => "N:" ++ toString a
   | .panic p => "N:panic(" ++ p ++ ")"
 
-/-- one operation on the list value `l` (the list itself is immutable; only memo cells change) -/
-def stepL (l : LV) (den : List Val) (op : Sexp) (hp : Heap) : Option (String × String × Heap × Log) :=
+/-- the `iter` script of the harness: `N` is called under `recover` (a panic is one observation and the
+    script goes on), `H` is not (a panicking `HasNext` — a list closure that panics, or the nil list after
+    one — ends the whole operation with that panic).  Without panics this is `runScript`. -/
+def runIterScript (m : Machine (Heap × LV) Val) :
+    List Call → (Heap × LV) → Log → List (Obs Val) → Except PanicVal (List (Obs Val)) × (Heap × LV) × Log
+  | [], s, lg, acc => (.ok acc.reverse, s, lg)
+  | c :: cs, s, lg, acc =>
+    match runCall m c s lg with
+    | (.panic p, s', lg') =>
+      if c = .H then (.error p, s', lg') else runIterScript m cs s' lg' (.panic p :: acc)
+    | (o, s', lg') => runIterScript m cs s' lg' (o :: acc)
+
+/-- did this answer report a panic other than `Next` on the exhausted iterator? (after such a panic the
+    memo cells of the closures that panicked hold zero values, so the list no longer denotes
+    `LExpr.denote`: the internal cross-check below is only meaningful before) -/
+def sawPanic (res : String) : Bool :=
+  ((res.replace "panic(next on empty iterator)" "").splitOn "panic(").length > 1
+
+/-- one operation on the list value `l` (the list itself is immutable; only memo cells change);
+    `clean`: no operation of this case has panicked so far -/
+def stepL (l : LV) (den : List Val) (clean : Bool) (op : Sexp) (hp : Heap) : Option (String × String × Heap × Log) :=
   let fin {X : Type} (name : String) (sh : X → String) (r : Except PanicVal X × Heap × Log) :=
     if r.2.1.maxEvals > 1 then some (name, "memo-violation", r.2.1, r.2.2)
     else some (name, showRes sh r.1, r.2.1, r.2.2)
@@ -282,9 +301,11 @@ def stepL (l : LV) (den : List Val) (op : Sexp) (hp : Heap) : Option (String × 
       -- cross-check of the heap semantics against the denotation of the expression
       let r := LL.toSeq FUEL l [] hp []
       match r.1 with
-      | .ok xs => if showSeq xs == showSeq den then fin "toseq" showSeq r
+      | .ok xs => if !clean || showSeq xs == showSeq den then fin "toseq" showSeq r
                   else some ("toseq", "model-divergence(" ++ showSeq xs ++ " vs " ++ showSeq den ++ ")", r.2.1, r.2.2)
       | .error _ => fin "toseq" showSeq r
+  | .list [.atom "tailhd"] =>
+      fin "tailhd" showOpt ((do let t ← LL.tail FUEL l; LL.headOpt FUEL t : HM (Option Val)) hp [])
   | .list [.atom "fold", z, g] => do
       fin "fold" toString (LL.fold (w2 (← F2.interp g)) FUEL l (.int (← z.asInt?)) hp [])
   | .list [.atom "foldleft", z, g] => do
@@ -310,24 +331,24 @@ def stepL (l : LV) (den : List Val) (op : Sexp) (hp : Heap) : Option (String × 
         (LL.reduce (.int 0) (fun a b => do emit s!"m{id}:{a},{b}"; pure (.int (wrap64 (a.asInt + b.asInt)))) FUEL l hp [])
   | .list (.atom "iter" :: calls) => do
       let cs ← parseCalls calls
-      let r := runScript (LL.fromList FUEL) cs (hp, l) []
+      let r := runIterScript (LL.fromList FUEL) cs (hp, l) [] []
       fin "iter" (fun (os : List (Obs Val)) => "[" ++ " ".intercalate (os.map showObs) ++ "]")
-        (.ok r.1, r.2.1.1, r.2.2)
+        (r.1, r.2.1.1, r.2.2)
   | _ => none
 
-def runOpsL (l : LV) (den : List Val) (hp : Heap) (n : Nat) : List Sexp → List String → Option (List String)
+def runOpsL (l : LV) (den : List Val) (hp : Heap) (n : Nat) (clean : Bool) : List Sexp → List String → Option (List String)
   | [], acc => some acc.reverse
   | op :: ops, acc =>
-    match stepL l den op hp with
+    match stepL l den clean op hp with
     | some (name, res, hp', lg) =>
       let n' := n + srcEvents lg
-      runOpsL l den hp' n' ops (tok name res n' lg :: acc)
+      runOpsL l den hp' n' (clean && !sawPanic res) ops (tok name res n' lg :: acc)
     | none => none
 
 def runList (e : LExpr) (ops : List Sexp) : Option String :=
   match LL.eval FUEL e (.int 0) {} [] with
   | (.ok l, hp, lg) => do
-    let toks ← runOpsL l (e.denote (.int 0)) hp (srcEvents lg) ops [tok "B" "ok" (srcEvents lg) lg]
+    let toks ← runOpsL l (e.denote (.int 0)) hp (srcEvents lg) true ops [tok "B" "ok" (srcEvents lg) lg]
     pure (" ".intercalate toks)
   | (.error p, _, lg) => some ("B=panic(" ++ p ++ "){" ++ ",".intercalate lg ++ "}")
 
